@@ -212,7 +212,7 @@ B("c14-from-str-no-round", "C14", TIMING, "        return Beat(beat_str).round_t
 B("c15-threshold", "C15", TSRC, "SSC_VERSION_SPLIT_TIMING = 0.7", "SSC_VERSION_SPLIT_TIMING = 0.8", "0.7")
 B("c15-gt", "C15", TSRC, "and float(simfile.version or \"0\") >= SSC_VERSION_SPLIT_TIMING", "and float(simfile.version or \"0\") > SSC_VERSION_SPLIT_TIMING", "version test")
 B("c15-missing-scrolls", "C15", TSRC, "    SSCChart.scrolls,\n", "", "eleven")
-B("c15-all-instead-of-any", "C15", TSRC, "and any(timing_prop.__get__(chart) for timing_prop in CHART_TIMING_PROPERTIES)", "and all(timing_prop.__get__(chart) for timing_prop in CHART_TIMING_PROPERTIES)", "counts as timed")
+B("c15-all-instead-of-any", "C15", TSRC, "and any(timing_prop.__get__(chart) for timing_prop in CHART_TIMING_PROPERTIES)", "and all(timing_prop.__get__(chart) for timing_prop in CHART_TIMING_PROPERTIES)", "chart is the source")
 B("c15-offset-from-simfile", "C15", TIMING, "        self.offset = Decimal(simfile_or_chart.offset or 0)", "        self.offset = Decimal(simfile.offset or 0)", "not read again")
 B("c15-displaybpm-from-simfile", "C15", DBPM, '        displaybpm_value = properties["DISPLAYBPM"]', '        displaybpm_value = simfile["DISPLAYBPM"]', "not read again")
 B("c15-range-swapped", "C15", DBPM, "return RangeDisplayBPM(min=Decimal(min_bpm), max=Decimal(max_bpm))", "return RangeDisplayBPM(min=Decimal(max_bpm), max=Decimal(min_bpm))", "range")
